@@ -1601,3 +1601,35 @@ Proof.
   - intros q j Hx. rewrite Hp in Hx. unfold dw_pend2 in Hx. apply filter_In in Hx. destruct Hx as [_ Hx].
     unfold at_point in Hx. cbn in Hx. intros ->. rewrite point_eqb_refl in Hx. discriminate.
 Qed.
+
+(* ------------------------------------------------------------------ DESTROY hooks all run *)
+Lemma destroy_weights_in hooks w :
+  In w (destroy_weights hooks) <-> In w (trig_weights hooks MDestroy) \/ In w (trig_weights hooks MAfterDestroy).
+Proof. unfold destroy_weights. rewrite zsort_uniq_in, in_app_iff. tauto. Qed.
+
+(* C08: a teardown calls every call hook declared at DESTROY or after_DESTROY, whatever other
+   hooks share its weight, and collects it on the spot *)
+Lemma destroy_all_run hooks orc s h :
+  In h hooks -> is_call h = true -> fst (h_trig h) = MDestroy \/ fst (h_trig h) = MAfterDestroy ->
+  In (TStart (new_inst orc h) h (e_rv s)) (destroy_trace hooks orc s) /\
+  In (TCollect (new_inst orc h) (h_trig h)) (destroy_trace hooks orc s).
+Proof.
+  intros Hh Hc Hm. unfold destroy_trace.
+  set (w := snd (h_trig h)).
+  assert (Hw : In w (destroy_weights hooks)).
+  { apply destroy_weights_in. destruct Hm as [Hm|Hm]; [left|right]; apply trig_weights_in; exists h;
+      (split; [exact Hh|]); destruct (h_trig h) as [a b]; cbn in *; subst; reflexivity. }
+  assert (Hat : In h (filter is_call (destroy_hooks_at hooks w))).
+  { apply filter_In. split; [|exact Hc]. unfold destroy_hooks_at. apply in_or_app.
+    destruct Hm as [Hm|Hm]; [left|right]; apply hooks_at_in; (split; [exact Hh|]);
+      destruct (h_trig h) as [a b]; cbn in *; subst; reflexivity. }
+  assert (K : forall x, In x [TStart (new_inst orc h) h (e_rv s); TCollect (new_inst orc h) (h_trig h)] ->
+              In x (flat_map (fun w0 =>
+                flat_map (fun h0 => [TStart (new_inst orc h0) h0 (e_rv s); TCollect (new_inst orc h0) (h_trig h0)])
+                         (filter is_call (destroy_hooks_at hooks w0)) ++
+                match map h_id (filter is_task (destroy_hooks_at hooks w0)) with [] => [] | ts => [TTasks ts (MDestroy, w0)] end)
+                (destroy_weights hooks))).
+  { intros x Hx. apply in_flat_map. exists w. split; [exact Hw|]. apply in_or_app. left.
+    apply in_flat_map. exists h. split; [exact Hat|exact Hx]. }
+  split; apply K; cbn; auto.
+Qed.
